@@ -299,7 +299,7 @@ func init() {
 			return []mon.Family{
 				{Name: "patterns", Env: 4, N: len(c15Offsets) * len(c15Patterns) * c.Pick(100, 6000), Run: c15Patterned},
 				{Name: "long-reclaim", Env: 1, N: c.Pick(4, 64), Run: c15Long},
-				{Name: "many-live-long", Env: 1, NoCold: true, N: c.Pick(3, 40), Run: c15ManyLive},
+				{Name: "many-live-long", Env: 1, NoCold: true, N: c.Pick(8, 60), Run: c15ManyLive},
 				{Name: "two-live-bitmaps", Env: 4, N: c.Pick(300, 30000), Run: c15TwoLive},
 				{Name: "top-of-int64", Env: 2, N: c.Pick(200, 20000), Run: c15TopOfInt64},
 				{Name: "tail>=2^31-bits", NoCold: true, N: c.Pick(0, 1) * b2i(c.Base() != "386"), Run: c15HugeTail}, // 1 GiB: thorough only, not in a 32-bit address space
@@ -636,7 +636,7 @@ func c15HugeTail(w *mon.W, _ int) {
 // list of word chunks was seeded that popped the wrong entry) must not make one bitmap forget or invent bits.
 func c15ManyLive(w *mon.W, idx int) {
 	r := w.Rng
-	k := 4 + idx%3
+	k := 4 + idx%5
 	const n = 70000
 	var ms []*c15Mon
 	next := make([]int64, k)
@@ -644,7 +644,9 @@ func c15ManyLive(w *mon.W, idx int) {
 		o := c15Offsets[r.Intn(4)]
 		c := c15New(w, o, true)
 		ms = append(ms, c)
-		for _, far := range []int64{n + 100000 + int64(r.Intn(50000)), n + 64, 70000, 96063 + int64(r.Intn(1000))} {
+		// tails of very different lengths (1 000 to 7 000 words at the first reclaim): whatever storage the library
+		// recycles between bitmaps comes back in sizes that fit some requests and not others
+		for _, far := range []int64{n + int64(r.Pick(66000, 100000, 150000, 250000, 400000)) + int64(r.Intn(50000)), n + 64, 70000, 96063 + int64(r.Intn(1000))} {
 			if !c.Set(o + far) {
 				return
 			}
